@@ -71,7 +71,7 @@ META = {
                     "bound_flux / bound_transport_neu put +/- the prescribed flux on Neumann and internal faces (numerical, not decided)"],
     "technique": "symbolic execution to signed sum-of-products normal form + set/sign comparison",
 }
-MIN_INSTANCES = {"R1": 6, "R2": 12, "R3": 13, "R4": 5, "R5": 12, "R6": 1, "R7": 7, "R8": 13}
+MIN_INSTANCES = {"R1": 6, "R2": 12, "R3": 13, "R4": 5, "R5": 12, "R6": 1, "R7": 7, "R8": 8}
 
 
 # ========================================================================================
@@ -319,13 +319,27 @@ def normalise(e: ast.expr) -> list[Term]:
             c = e.args[0].value
             return [Term(t.sign, t.factors, (c,) + t.conds) for t in normalise(e.args[1])] + \
                    [Term(t.sign, t.factors, (f"not ({c})",) + t.conds) for t in normalise(e.args[2])]
-    if isinstance(e, ast.Call) and (dotted(e.func) or "").split(".")[-1] == "sum_operator_list" and e.args \
-            and isinstance(e.args[0], (ast.List, ast.Tuple)):
-        out: list[Term] = []
-        for el in e.args[0].elts:
-            out += normalise(el)
-        return out
+    if isinstance(e, ast.Call) and (dotted(e.func) or "").split(".")[-1] in ("sum_operator_list", "sum") and e.args:
+        elts = _unrolled(e.args[0])
+        if elts is not None and elts:
+            out: list[Term] = []
+            for el in elts:
+                out += normalise(el)
+            return out
     return [Term(+1, (_atom(e),), ())]
+
+
+def _unrolled(seq: ast.expr) -> Optional[list]:
+    """Elements of a literal list/tuple, or of a comprehension over a literal list/tuple (unrolled)."""
+    if isinstance(seq, (ast.List, ast.Tuple)):
+        if any(isinstance(x, ast.Starred) for x in seq.elts):
+            return None
+        return list(seq.elts)
+    if isinstance(seq, (ast.ListComp, ast.GeneratorExp)) and len(seq.generators) == 1 and not seq.generators[0].ifs \
+            and isinstance(seq.generators[0].iter, (ast.List, ast.Tuple)) and isinstance(seq.generators[0].target, ast.Name):
+        g = seq.generators[0]
+        return [_subst(seq.elt, {g.target.id: it}) for it in g.iter.elts]
+    return None
 
 
 # ========================================================================================
@@ -353,6 +367,58 @@ class World:
                 if isinstance(s, ast.ClassDef):
                     self.classes[s.name] = (rel, s)
         self._memo: dict = {}
+        self._consts: dict[str, dict] = {}
+        self._mentions: dict = {}
+
+    def consts(self, rel: str) -> dict:
+        """Module-level simple constants (strings, numbers, lists/tuples of them) usable as substitutions."""
+        if rel not in self._consts:
+            env = {}
+            for st in self.ctx.repo.module(rel).tree.body:
+                tgt, val = None, None
+                if isinstance(st, ast.Assign) and len(st.targets) == 1 and isinstance(st.targets[0], ast.Name):
+                    tgt, val = st.targets[0].id, st.value
+                elif isinstance(st, ast.AnnAssign) and isinstance(st.target, ast.Name) and st.value is not None:
+                    tgt, val = st.target.id, st.value
+                if tgt and (isinstance(val, ast.Constant) or (isinstance(val, (ast.List, ast.Tuple)) and all(
+                        isinstance(x, ast.Constant) for x in val.elts))):
+                    env[tgt] = val
+            self._consts[rel] = env
+        return self._consts[rel]
+
+    def exec(self, d: "MethodDef", bind: Optional[dict] = None) -> "_Exec":
+        env = dict(self.consts(d.rel))
+        # parameters and locals shadow module constants
+        for a in d.fn.args.args + d.fn.args.kwonlyargs:
+            env.pop(a.arg, None)
+        env.update(bind or {})
+        return symexec(d.fn, env)
+
+    def mentions_grid_projection(self, ctxcls: str, name: str, defining: Optional[str], depth: int = 0) -> bool:
+        """Does self.<name> (transitively, through self calls, bounded) build a mortar_to_* projection?"""
+        key = (ctxcls, name, defining)
+        if key in self._mentions:
+            return self._mentions[key]
+        self._mentions[key] = False
+        res = False
+        for d in self.lookup(ctxcls, name, defining=defining):
+            for n in ast.walk(d.fn):
+                if isinstance(n, ast.Attribute) and n.attr in PROJ_TO_GRID:
+                    res = True
+                elif depth < 3 and isinstance(n, ast.Call) and isinstance(n.func, ast.Attribute) \
+                        and isinstance(n.func.value, ast.Name) and n.func.value.id == "self" and n.func.attr != name:
+                    if n.func.attr.startswith("_") and self.mentions_grid_projection(ctxcls, n.func.attr, d.cls.name, depth + 1):
+                        res = True
+            if res:
+                break
+        self._mentions[key] = res
+        return res
+
+    def meths(self, cd: ast.ClassDef) -> dict:
+        k = id(cd)
+        if k not in self._memo:
+            self._memo[k] = methods(cd)
+        return self._memo[k]
 
     def bases(self, cname: str) -> list[str]:
         if cname not in self.classes:
@@ -384,7 +450,7 @@ class World:
             order = self.mro(ctxcls)
         for c in order:
             rel, cd = self.classes[c]
-            mm = methods(cd)
+            mm = self.meths(cd)
             if name in mm and self._real(mm[name]):
                 return [MethodDef(rel, cd, mm[name])]
         if is_super:
@@ -392,11 +458,11 @@ class World:
         # name-mangled private helper: belongs to the defining class only
         if name.startswith("__") and not name.endswith("__") and defining and defining in self.classes:
             rel, cd = self.classes[defining]
-            mm = methods(cd)
+            mm = self.meths(cd)
             return [MethodDef(rel, cd, mm[name])] if name in mm else []
         out = []
         for c, (rel, cd) in self.classes.items():
-            mm = methods(cd)
+            mm = self.meths(cd)
             if name in mm and self._real(mm[name]):
                 out.append(MethodDef(rel, cd, mm[name]))
         return out
@@ -450,14 +516,71 @@ def _irregular_projection(a: Atom) -> bool:
         return a.name in PROJ_TO_MORTAR
     if a.kind in ("selfcall", "supercall", "name", "item", "opaque") or a.node is None:
         return False
-    target = a.node.func if isinstance(a.node, ast.Call) else a.node
+    target = a.node
+    if isinstance(a.node, ast.Call) and (dotted(a.node.func) or "").split(".")[-1] in ("MortarProjections", "dt", "Divergence"):
+        target = a.node.func
     return any(isinstance(n, ast.Attribute) and n.attr in PROJ_TO_GRID | PROJ_TO_MORTAR for n in ast.walk(target))
 
 
+class _InlineLinear(ast.NodeTransformer):
+    """Macro-expand `self.helper(..)` where it is an operand of a matrix product (`A @ self.h(..)` /
+    `self.h(..) @ x`) and the helper (transitively) builds a mortar_to_* projection: extracting part of a
+    source / flux expression into a method must not hide its terms.  Elementwise factors (`q * (...)`) are
+    left alone: they are weights, not linear carriers of the interface flux."""
+
+    def __init__(self, world: World, ctxcls: str, where: MethodDef, stack: tuple):
+        self.world, self.ctxcls, self.where, self.stack = world, ctxcls, where, stack
+
+    def _inline(self, e: ast.expr) -> ast.expr:
+        if not (isinstance(e, ast.Call) and isinstance(e.func, ast.Attribute) and isinstance(e.func.value, ast.Name)
+                and e.func.value.id == "self"):
+            return e
+        name = e.func.attr
+        if name in self.stack or len(self.stack) > 4:
+            return e
+        if not self.world.mentions_grid_projection(self.ctxcls, name, self.where.cls.name):
+            return e
+        defs = self.world.lookup(self.ctxcls, name, defining=self.where.cls.name)
+        if len(defs) != 1:
+            return e
+        ex = self.world.exec(defs[0], World.bind(defs[0].fn, e))
+        if len(ex.returns) != 1 or ex.returns[0][0]:
+            raise Undecided(f"{defs[0].rel}:{defs[0].qual}: helper used as operand of a matrix product has several / conditional returns")
+        sub = _InlineLinear(self.world, self.ctxcls, defs[0], self.stack + (name,))
+        return sub.visit(ex.returns[0][1])
+
+    def visit_BinOp(self, n: ast.BinOp):
+        n = self.generic_visit(n)
+        if isinstance(n.op, ast.MatMult):
+            l, r = self._inline(n.left), self._inline(n.right)
+            if l is not n.left or r is not n.right:
+                return ast.BinOp(left=l, op=n.op, right=r)
+        return n
+
+    def visit_Call(self, n: ast.Call):
+        # do not descend into the arguments of model calls (they are other expressions, not this product)
+        if isinstance(n.func, ast.Name) and n.func.id in ("__cond__", "__phi__"):
+            return self.generic_visit(n)
+        if (dotted(n.func) or "").split(".")[-1] in ("sum_operator_list", "sum"):
+            return self.generic_visit(n)
+        return n
+
+    def visit_Lambda(self, n):
+        return n
+
+
 def expand(world: World, ctxcls: str, expr: ast.expr, where: MethodDef, depth: int = 0, stack: tuple = ()) -> Expansion:
+    def _cand(n) -> bool:
+        return (isinstance(n, ast.Call) and isinstance(n.func, ast.Attribute) and isinstance(n.func.value, ast.Name)
+                and n.func.value.id == "self" and world.mentions_grid_projection(ctxcls, n.func.attr, where.cls.name))
+    if any(isinstance(n, ast.BinOp) and isinstance(n.op, ast.MatMult) and (_cand(n.left) or _cand(n.right)) for n in ast.walk(expr)):
+        expr = _InlineLinear(world, ctxcls, where, ()).visit(copy.deepcopy(expr))
     terms = normalise(expr)
     out = Expansion([], [], [])
     for t in terms:
+        if len(t.factors) == 1 and t.factors[0].kind == "opaque":
+            raise Undecided(f"{where.rel}:{where.qual}: a balance term is accumulated in a loop / unsupported statement "
+                            f"(`{t.factors[0].name}`): cannot enumerate its summands")
         projs = [i for i, a in enumerate(t.factors) if a.kind == "proj" and a.name in PROJ_TO_GRID]
         odd = [x for x in t.factors if _irregular_projection(x)]
         if odd:
@@ -478,7 +601,7 @@ def expand(world: World, ctxcls: str, expr: ast.expr, where: MethodDef, depth: i
             found_any = False
             per_alt: dict = {}
             for d in defs:
-                ex = symexec(d.fn, World.bind(d.fn, a.node))
+                ex = world.exec(d, World.bind(d.fn, a.node))
                 for conds, rexpr in ex.returns:
                     sub = expand(world, ctxcls, rexpr, d, depth + 1, stack + (key,))
                     out.alt_mismatch += sub.alt_mismatch
@@ -497,10 +620,10 @@ def expand(world: World, ctxcls: str, expr: ast.expr, where: MethodDef, depth: i
     return out
 
 
-def _is_forwarder(d: MethodDef) -> Optional[str]:
+def _is_forwarder(d: MethodDef, world: Optional[World] = None) -> Optional[str]:
     """Name m if the method is `return self.m(<its own parameters, unchanged>)`."""
-    ex = symexec(d.fn, {})
-    if len(ex.returns) != 1:
+    ex = symexec(d.fn, dict(world.consts(d.rel)) if world is not None else {})
+    if len(ex.returns) != 1 or ex.returns[0][0]:
         return None
     ts = normalise(ex.returns[0][1])
     if len(ts) != 1 or ts[0].sign != 1 or len(ts[0].factors) != 1 or ts[0].factors[0].kind != "selfcall":
@@ -513,16 +636,38 @@ def _is_forwarder(d: MethodDef) -> Optional[str]:
 def canonical(world: World, ctxcls: str, atom: Atom) -> tuple:
     """(method name, leading bound arguments) of an interface-flux atom, pure forwarders resolved in ctxcls."""
     name, seen = atom.name, set()
+    ck = ("canon", ctxcls, atom.name)
+    if ck in world._memo:
+        name = world._memo[ck]
+        seen.add(name)
     while name not in seen:
         seen.add(name)
         defs = world.lookup(ctxcls, name)
         if len(defs) != 1:
             break
-        nxt = _is_forwarder(defs[0])
+        nxt = _is_forwarder(defs[0], world)
         if nxt is None:
             break
         name = nxt
-    return (name, tuple(atom.args[:-1]))
+    world._memo[ck] = name
+    lead = [a for a in atom.args if not a.startswith("interfaces=")]
+    if len(lead) == len(atom.args):
+        lead = lead[:-1]
+    return (name, tuple(_argval(a) for a in lead))
+
+
+def _argval(text: str) -> str:
+    """`name=value` -> `value` (an argument passed by keyword is the same argument)."""
+    import re
+    m = re.match(r"^[A-Za-z_]\w*=(?!=)(.*)$", text, re.S)
+    return m.group(1) if m else text
+
+
+def _last_arg(F: Atom) -> Optional[str]:
+    for a in F.args:
+        if a.startswith("interfaces="):
+            return _argval(a)
+    return _argval(F.args[-1]) if F.args else None
 
 
 def _intf_arg_of_proj(p: Atom) -> Optional[str]:
@@ -658,7 +803,7 @@ def run(ctx: Ctx) -> None:
         for cx in contexts:
             # a context is only of interest if it differs from its parent in a method reachable from the balance;
             # checking every subclass is sound (over-approximation) and cheap
-            ex = symexec(md.fn, {})
+            ex = world.exec(md)
             calls = []
             for conds, r in ex.returns:
                 for n in ast.walk(r):
@@ -711,8 +856,8 @@ def run(ctx: Ctx) -> None:
                     if kind.endswith("_avg"):
                         msg = (f"extensive interface flux {F.name} is projected with {kind}: averaged projections do not preserve the "
                                "total flux (they coincide with _int only on matching grids)")
-                    elif F.args and intf is not None and F.args[-1] != intf:
-                        msg = (f"{F.name} is evaluated on `{F.args[-1][:60]}` but the projection is built for `{intf[:60]}`")
+                    elif F.args and intf is not None and _last_arg(F) != intf:
+                        msg = (f"{F.name} is evaluated on `{(_last_arg(F) or '')[:60]}` but the projection is built for `{intf[:60]}`")
                     elif cod is None:
                         raise Undecided(f"{c.where.rel}:{c.where.qual}: cannot determine the codimension of the interfaces of `{recv[:80]}`")
                     elif cod == [1]:
@@ -763,8 +908,8 @@ def run(ctx: Ctx) -> None:
                     msg = f"extensive interface flux {F.name} is projected to the faces with {kind} (must be mortar_to_primary_int)"
                 elif not kind.startswith("mortar_to_primary"):
                     msg = f"interface flux {F.name} enters a face flux through {kind} (must be mortar_to_primary_int)"
-                elif F.args and intf is not None and F.args[-1] != intf:
-                    msg = f"{F.name} is evaluated on `{F.args[-1][:60]}` but the projection is built for `{intf[:60]}`"
+                elif F.args and intf is not None and _last_arg(F) != intf:
+                    msg = f"{F.name} is evaluated on `{(_last_arg(F) or '')[:60]}` but the projection is built for `{intf[:60]}`"
                 elif L is None:
                     raise Undecided(f"{c.where.rel}:{c.where.qual}: projected interface flux without a boundary discretisation factor")
                 elif L.kind == "call" and L.name in NEUMANN_SLOTS:
@@ -835,51 +980,77 @@ def run(ctx: Ctx) -> None:
                           facts={"flux": sorted(bf), "source": sorted(bs)})
 
     _r7_buoyancy(ctx, world)
-    _r8_sweep(ctx, extensive)
+    _r8_sweep(ctx, extensive, world)
 
 
-def _r8_sweep(ctx: Ctx, extensive: set) -> None:
-    """Every product `P.mortar_to_X_k() @ F(..)` in the model layer whose right factor is one of the extensive
-    interface / well fluxes found in the balances uses an integrated (_int) projection.  quick: anchored modules;
-    thorough: all of src/porepy/models, examples, applications."""
-    from ..core.astutil import single_assign_value
+def _r8_sweep(ctx: Ctx, extensive: set, world: World) -> None:
+    """Wherever one of the extensive interface / well fluxes found in the balances is projected by a
+    mortar_to_* matrix, the projection is an integrated one.  Decided on the normal form of every expression a
+    function returns (locals substituted, sums distributed), so temporaries and regrouping do not matter.
+    One passing obligation per flux (all its projection sites), one finding per offending site.
+    quick: anchored modules; thorough: all of src/porepy/models, examples, applications."""
     if not extensive:
         raise AnchorError("no extensive interface flux identified in the balances")
     rels = list(WORLD)
     if ctx.tier == "thorough":
         for sub in ("src/porepy/models", "src/porepy/examples", "src/porepy/applications"):
             rels += [r for r in ctx.repo.all_py(sub) if r not in rels]
-    dynamic = 0
+    sites: dict[str, list] = {}
+    reported: set = set()
     for rel in rels:
         m = ctx.repo.module(rel)
+        consts = world.consts(rel)
         for q, fn in m.functions():
-            for b in [n for n in walk_local(fn) if isinstance(n, ast.BinOp) and isinstance(n.op, ast.MatMult)]:
-                P = b.left.right if isinstance(b.left, ast.BinOp) and isinstance(b.left.op, ast.MatMult) else b.left
-                if not (isinstance(P, ast.Call) and isinstance(P.func, ast.Attribute) and P.func.attr in PROJ_TO_GRID and not P.args):
-                    continue
-                R = b.right
-                for _ in range(3):
-                    if isinstance(R, ast.Name):
-                        v = single_assign_value(fn, R.id)
-                        if v is None:
-                            break
-                        R = v
-                names = set()
-                for c in [n for n in ast.walk(R) if isinstance(n, ast.Call)]:
-                    if isinstance(c.func, ast.Attribute) and isinstance(c.func.value, ast.Name) and c.func.value.id == "self":
-                        names.add(c.func.attr)
-                    elif isinstance(c.func, ast.Call) and (dotted(c.func.func) or "") == "getattr":
-                        dynamic += 1
-                hit = sorted(names & extensive)
-                if not hit:
-                    continue
-                # only the outermost calls of R count as the projected quantity: R itself or a sum of calls
-                ctx.check("R8", P.func.attr.endswith("_int"), m, q, P,
-                          f"extensive flux {hit} is projected with {P.func.attr}: only integrated projections preserve totals "
-                          "(averaged ones coincide with them on matching grids only)",
-                          construct=f"{P.func.attr}() @ {hit}", facts={"fluxes": hit})
-    if dynamic:
-        ctx.note(f"R8: {dynamic} projected getattr(self, 'interface_' + name)(..) site(s) are covered through R4/R6 (bound per caller), not by the sweep")
+            if not any(isinstance(n, ast.Attribute) and n.attr in PROJ_TO_GRID for n in ast.walk(fn)):
+                continue
+            env = {k: v for k, v in consts.items() if k not in {a.arg for a in fn.args.args}}
+            ex = symexec(fn, env)
+            exprs = [e for _, e in ex.returns] + [e for lst in ex.appended.values() for _, e in lst]
+            for e in exprs:
+                for root in _arith_roots(e):
+                    for t in normalise(root):
+                        for i, a in enumerate(t.factors):
+                            if a.kind != "proj" or a.name not in PROJ_TO_GRID:
+                                continue
+                            names = set()
+                            for r_ in t.factors[i + 1:]:
+                                if r_.kind == "selfcall":
+                                    names.add(r_.name)
+                                if r_.node is not None:
+                                    for c in [n for n in ast.walk(r_.node) if isinstance(n, ast.Call)]:
+                                        if isinstance(c.func, ast.Attribute) and isinstance(c.func.value, ast.Name) and c.func.value.id == "self":
+                                            names.add(c.func.attr)
+                            for fx in sorted(names & extensive):
+                                ok = a.name.endswith("_int")
+                                sites.setdefault(fx, []).append((rel, q, a.name, ok))
+                                if not ok and (rel, q, a.name, fx) not in reported:
+                                    reported.add((rel, q, a.name, fx))
+                                    ctx.check("R8", False, m, q, fn,
+                                              f"extensive flux {fx} is projected with {a.name}: only integrated projections preserve totals "
+                                              "(averaged ones coincide with them on matching grids only)",
+                                              construct=f"{a.name}() @ {fx}", facts={"flux": fx})
+    for fx in sorted(sites):
+        good = sorted({f"{q}:{p}" for (rel, q, p, ok) in sites[fx] if ok})
+        if all(ok for (_, _, _, ok) in sites[fx]):
+            ctx.check("R8", True, WORLD[1], "<sweep>", None, f"every projection of {fx} is integrated ({len(good)} sites)",
+                      construct=f"projections of {fx}", facts={"sites": good})
+    missing = sorted(extensive - set(sites))
+    if missing:
+        ctx.note(f"R8: no direct projection site for {missing} (reached only through callable parameters / getattr; covered by R3/R4)")
+
+
+def _arith_roots(e: ast.expr) -> list:
+    """Maximal arithmetic sub-expressions of e (also inside call arguments and the executor's markers)."""
+    roots = []
+
+    def visit(n, parent_arith: bool):
+        is_arith = isinstance(n, (ast.BinOp, ast.UnaryOp))
+        if is_arith and not parent_arith:
+            roots.append(n)
+        for ch in ast.iter_child_nodes(n):
+            visit(ch, is_arith)
+    visit(e, False)
+    return roots
 
 
 def _multiplicity(ctx: Ctx, rule: str, couplings: list, seen: set, cx: str, side: str) -> None:
@@ -920,7 +1091,7 @@ def _r7_buoyancy(ctx: Ctx, world: World) -> None:
     rel, cd, ffn, jfn = owner
 
     def couplings(fn):
-        ex = symexec(fn, {})
+        ex = symexec(fn, dict(world.consts(rel)))
         ret_names = set()
         for r in [n for n in walk_local(fn) if isinstance(n, ast.Return) and isinstance(n.value, ast.Name)]:
             ret_names.add(r.value.id)
